@@ -27,3 +27,16 @@ def general_constants(**over):
         setattr(c, k, v)
     c.getCN0()
     return c
+
+
+def n0(r, c):
+    return c.CN0 * math.exp(-c.kN0 * c.deltaRN0 * math.tanh((r - c.rp) / c.deltaRN0))
+
+
+def n0_log_derivative(r, c):
+    """n0'(r) / n0(r) = -kN0 (1 - tanh^2((r - rp)/dRN0))"""
+    return -c.kN0 * (1.0 - math.tanh((r - c.rp) / c.deltaRN0) ** 2)
+
+
+def t_e(r, c):
+    return c.CTe * math.exp(-c.kTe * c.deltaRTe * math.tanh((r - c.rp) / c.deltaRTe))
